@@ -1,7 +1,7 @@
 """C07 - Thumb decode.  16-bit: all 2^16 halfwords by brute force in every IT position and for both carry values,
 compared with the reference encoding table.  32-bit: joint lazy-word exploration (armmc/decodecheck.py) of the 3 x 2^27
 words whose first halfword starts 11101 / 11110 / 11111, in each IT position and carry value.  Fetch rule: through the
-real fetch_instruction() from RAM, all 2^16 first halfwords x second halfwords {0, 0xFFFF, 0xA5A5}."""
+real fetch_instruction() from RAM, all 2^16 first halfwords x second halfwords {0, 0xFFFF, 0x12A5}."""
 from ..runner import Result
 from .. import sweep, decodecheck, machine, isa
 from ..decodecheck import UNDEF, NOTIMPL, UNPRED, norm, attr, _MISSING
@@ -170,7 +170,7 @@ def fetch(res, blk):
         regs.cpsr.it = itv
         regs.branch_to(isa.CODE)
         for hw1 in range(blk * 8192, (blk + 1) * 8192):
-            for hw2 in (0x0000, 0xFFFF, 0xA5A5):
+            for hw2 in (0x0000, 0xFFFF, 0x12A5):          # 0x12A5: not symmetric under byte reversal
                 machine.put(cpu, isa.CODE, hw1.to_bytes(2, "little") + hw2.to_bytes(2, "little"))
                 res.cases += 1
                 res.transitions += 1
